@@ -39,6 +39,8 @@ type raceSpec struct {
 	RelayDelayMs int      `json:"relay_delay_ms"`
 	Mode         string   `json:"mode"`  // "observe": a raw accept-all observer; "select": the receiver's real connection selection + transport auth
 	Extra        int      `json:"extra"` // select mode: extra connections dialled to the winner's address afterwards (as dialExtraConns does)
+	Rogues       int      `json:"rogues"`     // select mode: strangers that connect first and authenticate as sender with RogueCode
+	RogueCode    string   `json:"rogue_code"` // "" = they connect and stay silent
 }
 
 type sel struct {
@@ -267,6 +269,39 @@ func raceCase(args []string) string {
 			r.Close()
 		}
 	}()
+	// strangers first: they reach the listener before the honest sender and try to pass (or just sit there)
+	var rogueAccepted, rogueDone int32
+	var rmu sync.Mutex
+	for i := 0; i < g.Rogues && g.Mode == "select"; i++ {
+		rs, err := net.ListenUDP("udp4", &net.UDPAddr{IP: net.IPv4zero})
+		if err != nil {
+			continue
+		}
+		defer rs.Close()
+		rtr := &quic.Transport{Conn: rs}
+		rc, err := rtr.Dial(ctx, &net.UDPAddr{IP: net.ParseIP("127.0.0.1"), Port: port}, quictransport.ClientConfig(), quictransport.DefaultClientQUICConfig())
+		if err != nil {
+			continue
+		}
+		if g.RogueCode == "" {
+			continue // silent: the connection just stays open
+		}
+		go func() {
+			tc, _ := transferquic.NewDialer(rc, logger).Dial(ctx, "peer")
+			actx, acancel := context.WithTimeout(ctx, 5*time.Second)
+			err := app.VerifAuthenticateTransport(actx, tc, g.RogueCode, app.VerifRoleSender)
+			acancel()
+			rmu.Lock()
+			rogueDone++
+			if err == nil {
+				rogueAccepted++
+			}
+			rmu.Unlock()
+		}()
+	}
+	if g.Rogues > 0 {
+		time.Sleep(30 * time.Millisecond) // the strangers are ahead of the honest sender in the listener's queue
+	}
 	dsock, err := net.ListenUDP("udp4", &net.UDPAddr{IP: net.IPv4zero})
 	if err != nil {
 		out["setup_err"] = err.Error()
@@ -275,9 +310,14 @@ func raceCase(args []string) string {
 	prober := ice.VerifNewProber(dsock, logger)
 	defer prober.Close()
 	ctl := &raceCtl{waiting: map[string]*parked{}, arrived: make(chan string, 64), active: len(g.Schedule) > 0}
+	var emu sync.Mutex
+	established := map[string]bool{} // candidates whose dial returned a connection (they reached the hook behind tr.Dial)
 	verifhook.Set(func(name string, _ []uint64, s string) {
 		switch name {
 		case "ice.dial.established":
+			emu.Lock()
+			established[addrLabel[s]] = true
+			emu.Unlock()
 			ctl.hit(addrLabel[s])
 		case "ice.main.got_result":
 			ctl.hit("main")
@@ -321,8 +361,30 @@ func raceCase(args []string) string {
 		return fin()
 	}
 	out["schedule_done"] = done
+	emu.Lock()
+	var est []string
+	for l := range established {
+		est = append(est, l)
+	}
+	emu.Unlock()
+	sort.Strings(est)
+	out["established"] = est
 	if g.Mode == "select" {
-		return raceSelect(ctx, g, out, fin, r.conn, r.err, selCh, accepted, ln, prober, dsock, joinCode, addrLabel, logger, &umu, &updates)
+		defer func() {}()
+		out["rogues"] = g.Rogues
+		res := raceSelect(ctx, g, out, fin, r.conn, r.err, selCh, accepted, ln, prober, dsock, joinCode, addrLabel, logger, &umu, &updates)
+		rmu.Lock()
+		ra := rogueAccepted
+		rmu.Unlock()
+		if ra > 0 {
+			// (raceSelect already produced the JSON; re-open it to add the stranger verdict)
+			var m map[string]any
+			json.Unmarshal([]byte(res), &m)
+			m["rogue_accepted"] = ra
+			b, _ := json.Marshal(m)
+			return string(b)
+		}
+		return res
 	}
 	if r.err != nil {
 		out["dial_err"] = r.err.Error()
